@@ -458,3 +458,57 @@ def ok_return_blocks(body):
         if s["p"] == [0] and r["k"] == "agg" and r.get("adt") == "std::result::Result" and r.get("vn") == "Ok":
             out.append(bb)
     return out
+
+
+def edge_guards(b):
+    """[(target_bb, fact)] facts established on switch edges; fact = (op, lhs_expr, rhs_expr) normalised to hold on the edge"""
+    NEG = {"Lt": "Ge", "Le": "Gt", "Gt": "Le", "Ge": "Lt", "Eq": "Ne", "Ne": "Eq"}
+    out = []
+    for bb in sorted(b.live_blocks()):
+        t = b.term(bb)
+        if t["k"] != "switch":
+            continue
+        ed = switch_edges(b, bb)
+        if ed is None:
+            continue
+        e = expr_of(b, t["o"])
+        neg = False
+        while e[0] == "un" and e[1] == "Not":
+            neg, e = not neg, e[2]
+        z, nz = ed if not neg else (ed[1], ed[0])
+        if e[0] == "bin" and e[1] in NEG:
+            out.append((nz, (e[1], strip_casts(e[2]), strip_casts(e[3]))))
+            out.append((z, (NEG[e[1]], strip_casts(e[2]), strip_casts(e[3]))))
+        elif e[0] == "call":
+            out.append((nz, ("true", e, None)))
+            out.append((z, ("false", e, None)))
+    return out
+
+
+def holds(b, dom, bb, pred):
+    """some edge fact satisfying pred dominates bb"""
+    return any(dominates(dom, tgt, bb) and pred(f) for tgt, f in edge_guards(b))
+
+
+def fold(e):
+    """constant-fold integer arithmetic in an expression tree (best effort)"""
+    if not isinstance(e, tuple) or not e:
+        return e
+    if e[0] == "cast":
+        inner = fold(e[2])
+        if inner[0] == "const" and isinstance(inner[1], int) and re.match(r"^[ui](8|16|32|64|128|size)$", str(e[1])):
+            return inner
+        return ("cast", e[1], inner)
+    if e[0] == "bin":
+        a, b = fold(e[2]), fold(e[3])
+        if a[0] == "const" and b[0] == "const" and isinstance(a[1], int) and isinstance(b[1], int):
+            op = e[1].replace("WithOverflow", "").replace("Unchecked", "")
+            try:
+                v = {"Add": a[1] + b[1], "Sub": a[1] - b[1], "Mul": a[1] * b[1], "Div": a[1] // b[1] if b[1] else None,
+                     "Rem": a[1] % b[1] if b[1] else None, "Shl": a[1] << b[1], "Shr": a[1] >> b[1]}.get(op)
+            except Exception:
+                v = None
+            if v is not None:
+                return ("const", v)
+        return ("bin", e[1], a, b)
+    return e
